@@ -175,7 +175,9 @@ def literal_skeletons():
        ('q', ['any', 'any']))
     # one clause laid out over many lines with anonymous variables at many line/column positions: every _ is its own variable
     ml_args = [A('hub')] + [_(k) for k in range(1, 14)] + [A('end')]
-    ml_src = 'route(hub,\n' + ''.join(' ' * (k % 12) + '_,\n' for k in range(1, 14)) + '  end).\n'
+    # layout: two _ on line 1 (columns 11 and 14), one per line on lines 2-10 (varying columns, some repeated), two on line 11
+    # (columns 1 and 4): the same column recurs on different lines, and line/column digit strings of different _ concatenate alike
+    ml_src = ('route(hub, _, _,\n' + ''.join(' ' * (k % 5) + '_,\n' for k in range(1, 10)) + ' _, _,\n' + '  end).\n')
     S.append(dict(name='multiline', clauses=[(F('route', *ml_args), TRUE)], source=ml_src, facts={},
                   query=('route', [('fixed', A('hub'))] + [('fixed', ('sym', 0)), ('fixed', ('sym', 1))] + [('fixed', V('Q%d' % k)) for k in range(3, 13)]
                          + ['any', ('fixed', A('end'))])))
